@@ -42,6 +42,8 @@ SitesOf(e, c) == LET m == { i \in DOMAIN e.chroms : e.chroms[i].name = c }
 View(e, c)     == Considered(SitesOf(e, c), e.only)
 Selected(e, c) == Len(e.sel) = 0 \/ c \in Rng(e.sel)
 RowNames(e)    == { e.rows[i].c : i \in DOMAIN e.rows }
+(* the chromosomes of the file that the run has to report *)
+Requested(e)   == { e.chroms[i].name : i \in { j \in DOMAIN e.chroms : Len(e.chroms[j].sites) > 0 /\ Selected(e, e.chroms[j].name) } }
 EachRow(e, P(_, _)) == \A i \in DOMAIN e.rows : P(e.rows[i], View(e, e.rows[i].c))
 
 (* features / lines of one chromosome *)
@@ -77,7 +79,7 @@ JudgeStats(e) ==
     /\ Check(e, "BlockSizeSum", \A r \in Rng(e.rows) \cup Rng(e.all) : r.vsum = r.phased)
     /\ Check(e, "BlockList",    /\ NoDup(e.blist)
                                 /\ \A i \in DOMAIN e.blist : e.blist[i][1] \in RowNames(e)
-                                /\ \A c \in RowNames(e) :
+                                /\ \A c \in RowNames(e) \cup Requested(e) :     \* also for a requested chromosome that got no row
                                       { <<b[2], b[3], b[4], b[5]>> : b \in LinesOf(e, c) } = BlockLines(View(e, c)))
     /\ Check(e, "BpSumBound",   EachRow(e, LAMBDA r, V : BpSumOK(V, r.bpsum)))
     /\ Check(e, "BpSumWhenDisjoint", EachRow(e, LAMBDA r, V : BpSumExact(V, r.bpsum)))
